@@ -1,5 +1,5 @@
 /-
-  Y0.Lemmas.CtfTrCondLink3 — **the two identities of Algorithm 3** for a conditional query in the class `ctfTRLinkClass`
+  Y0.Lemmas.CtfTrCondLink3 — **the two identities of Algorithm 3** for a conditional query in the class `ctfTRSoundClass`
   (`ctfTR_link`): with `dNames = V(D_*)` the vertices of the derived event of line 2 and `Q_D τ = Q[V(D_*)](τ)`,
 
       P(outcomes ∧ conditions) = (Σ_{V(D_*) ∖ (V(Y_*) ∪ V(X_*))} Q_D) · c
@@ -153,7 +153,7 @@ end LinkData
 /-- **the two identities of Algorithm 3** (`hnum`, `hden` of `ctfTR_sound_of_parts`, with `J = Q[V(D_*)]`). -/
 theorem ctfTR_link (g : MG Name) (hg : g.WF) (o c : Event)
     (hnodes : ∀ p ∈ o ++ c, p.1.name ∈ g.nodes) (hvalued : ∀ p ∈ o ++ c, p.2.isSome = true)
-    (hcls : ctfTRLinkClass g o c = true)
+    (hcls : ctfTRSoundClass g o c = true)
     (dstar : Event) (dNames : List Name) (h2 : line2C g o c = .ok (dstar, dNames))
     (M : Model) (hM : Compatible M g) (hnorm : ∀ pmf ∈ M.noise, pmf.sum = 1)
     (card : Name → Nat) (hcard : ∀ v pa lat, M.f v pa lat < card v)
